@@ -285,6 +285,7 @@ Section Service.
       s_ops s' = update id (fun o => o <| op_ext := Some now |>) (s_ops s) /\
       s_st s' = (if is_disconnect (op_packet o) then PendingDisconnect else s_st s) /\
       (op_user o = false -> s_tmo s' = s_tmo s) /\
+      (forall j, In j (s_pwco s) -> In j (s_pwco s')) /\
       (needs_pid (op_packet o) = false -> s_pwco s' = s_pwco s ++ [id] /\ s_ppub s' = s_ppub s /\ s_pnon s' = s_pnon s).
   Proof.
     intros HW Hc Hid Hb. unfold fully_written. rewrite Hc. unfold getop in Hid. rewrite Hid.
@@ -312,7 +313,9 @@ Section Service.
      [ | |destruct (pub_qos pb =? 0) eqn:Eq| | | | | | | | | | | | ]);
     cbn [obind]; eexists; (split; [reflexivity|]); cbn [is_disconnect]; split.
     all: try (apply Hpw; [cbn; rewrite ?Eq; reflexivity|reflexivity]; fail).
-    all: try (splits; try reflexivity; try discriminate; cbn; rewrite ?Eq; cbn; try discriminate; intros _; splits; reflexivity).
+    all: try (splits; try reflexivity; try discriminate;
+              try (intros j Hj; cbn; first [exact Hj | apply in_or_app; left; exact Hj]; fail);
+              cbn; rewrite ?Eq; cbn; try discriminate; intros _; splits; reflexivity).
     all: match type of Hbound with ?A -> _ => assert (Hn : A) by (cbn; rewrite ?Eq; reflexivity) end;
          destruct (Hbound Hn) as (p & Hp1 & Hp2); cbn in Hp2; inversion Hp2; subst p;
          first [ eapply Hpp; [exact Hp1|cbn; rewrite ?Eq; reflexivity|reflexivity]
